@@ -18,7 +18,7 @@ Definition frag2_pexpr (pe : pexpr) : bool :=
   match pe with
   | EPlain _ => true
   | EDefault p _ _ w | EAlt p _ _ w => negb (is_list_param p) && sub_word w
-  | ELen _ => false
+  | ELen _ => true
   end.
 Definition frag2_inner (p : wpiece) : bool :=
   match p with WDQ _ => false | WParam pe => frag2_pexpr pe | _ => true end.
@@ -228,6 +228,7 @@ Proof.
     destruct (uses_param e colon p).
     + now apply pword_unquoted.
     + cbn. apply equiv_refl.
+  - cbn [expand_pexpr pexpr_items agree]. rewrite poly_len_eq. unfold flat; cbn. rewrite app_nil_r. apply equiv_refl.
 Qed.
 
 (** * Inside double quotes: everything the default word yields is one quoted run *)
@@ -489,6 +490,8 @@ Proof.
     destruct (uses_param e colon p).
     + now apply pword_quoted.
     + cbn [agree]. rewrite (dq_out_single _ _ (Splittable [])) by reflexivity. apply equiv_refl.
+  - cbn [expand_pexpr pexpr_items agree]. rewrite poly_len_eq.
+    rewrite (dq_out_single _ _ (Splittable (show_nat_str (len_of e p)))) by reflexivity. apply equiv_refl.
 Qed.
 
 End Sub3.
